@@ -42,7 +42,7 @@ def main():
             if not os.path.isdir(d) or (only and only not in mid):
                 continue
             meta = json.load(open(os.path.join(d, "meta.json")))
-            prop = meta["property"]
+            prop = meta.get("check_property") or meta["property"]
             applied = None
             for pf in ("patch.rebased.diff", "patch.diff"):
                 pth = os.path.join(d, pf)
